@@ -82,3 +82,4 @@ package utils
 //@   modifies nothing
 //@   ensures fresh-copy: result != nil ==> fresh(result)
 //@ end
+
